@@ -135,7 +135,9 @@ def factories(ctx: Ctx):
             if len(args) == 1 and isinstance(args[0], ast.Starred) and isinstance(args[0].value, ast.Tuple):
                 args = list(args[0].value.elts)
             data_args += [a for a in args[1:] if not (isinstance(a, ast.Name) and a.id in ("diff_nans",))]
-        bad = [u(a) for a in data_args if not (isinstance(a, ast.Subscript) and u(a.slice) == "cls._slice_idx_expr(cube, slice_idx)")]
+        from .common import is_slice_idx_expr
+
+        bad = [u(a) for a in data_args if not (isinstance(a, ast.Subscript) and is_slice_idx_expr(a.slice))]
         if not data_args:
             ctx.undecided("slice-pass-through", where, "constructor call with data arguments not found", "tensor[cls._slice_idx_expr(cube, slice_idx)]")
         else:
@@ -455,7 +457,7 @@ def cubeset(ctx: Ctx):
     m = ctx.repo.lookup(cs, "_cubes")
     ctor = None
     for n in ast.walk(m.node):
-        if isinstance(n, ast.Call) and isinstance(n.func, ast.Name) and n.func.id == "Cube" and n.keywords:
+        if isinstance(n, ast.Call) and isinstance(n.func, ast.Name) and n.func.id == "Cube" and (n.keywords or len(n.args) >= 2):
             ctor = n
     if ctor is None:
         ctx.undecided("cubeset", "cube.py::CubeSet._cubes", "Cube(...) call not found", "")
@@ -464,7 +466,8 @@ def cubeset(ctx: Ctx):
             "cubeset",
             "cube.py::CubeSet._cubes [Cube(...)]",
             ctor,
-            "Cube(cube_response, cube_idx=idx if self._is_multi_cube else None, transforms=self._transforms_dicts[idx], population=self._population, mask_size=self._min_base)",
+            # (package-internal calls are compared in positional form: cube_idx, transforms, population, mask_size)
+            "Cube(cube_response, idx if self._is_multi_cube else None, self._transforms_dicts[idx], self._population, self._min_base)",
             "cube idx, its own transforms, the population and the minimum base are passed by matching names",
         )
     from ..stmts import match_atoms, positive_guard_atoms
